@@ -64,6 +64,9 @@ impl Engine for OpSim {
             c.w_selfdestruct = 0;
             c.w_create = 2;
             c.w_raw = 0;
+            // the reward twins run without a monitor that could tell when a program looks at
+            // a fee party's balance: values read are dropped, not stored
+            c.observe = false;
         };
         let mut world = gen_world(rng, &k);
         world.cfg.code_size_limit = None;
